@@ -479,6 +479,16 @@ def checker_clock(ctx: Ctx):
                     ok = len(ops_) == 2 and len(st_) == 1 and arr_ok and sv_ok
                     why = f"clock' = max(clock + travel: {arr_ok}, window start: {len(st_) == 1}) + {svc}: {sv_ok}"
             ctx.ob("C06.l", f"{cname}.checker:clock-carries-the-wait", ok, sl.where, why, construct=f"{cname}.check_solution_validity:clock-formula")
+            # the simulated clock is a real number, as in the env (`current_time + dist <= window end` in the mask): an arrival
+            # truncated to an integer forgives up to one time unit of lateness -- everything, once times are scaled to [0, 1]
+            TRUNC = {"int", "long", "short", "floor", "trunc", "round", "ceil", "floor_", "trunc_", "round_"}
+            cut = [y for y in vg.walk(body, stop=lambda z: z.op == "loopvar")
+                   if (y.op == "meth" and y.args[1] in TRUNC) or nf._fn(y) in ("torch.floor", "torch.trunc", "torch.round", "torch.ceil")]
+            cut = [y for y in cut if any(z.op == "loopvar" and z.args[0] == n.args[0] for z in vg.walk(y))]
+            ctx.ob("C06.l", f"{cname}.checker:clock-not-truncated", not cut, sl.where,
+                   "the arrival time is compared as computed" if not cut else
+                   f"the simulated clock passes through {vg.show(cut[0], 3)}: lateness below one time unit is forgiven (all of it when the generator scales times to [0, 1]), while the mask compares the untruncated time",
+                   construct=f"{cname}.check_solution_validity:clock-truncated")
         if not found:
             raise AnalysisError(f"{cname}.check_solution_validity: simulated clock not found")
 
@@ -594,6 +604,39 @@ def svrp_every_route_checked(ctx: Ctx):
         why = (f"the action sequence is closed with a depot visit before the depot positions are collected: {closed}; trailing check of the open route after the loop: {bool(trailing)}")
     ctx.ob("C06.o", "SVRPEnv.checker:every-route-checked", ok, fi.loc, why if ok else why + " -- the route of the last technician (and a sequence without depot visits) is never validated",
            construct="SVRPEnv.check_solution_validity:last-route")
+    # the technician that a route is judged against: `_step` and `_get_reward` hand the vehicle to the next technician at
+    # EVERY depot visit, also after an empty route (the mask forces one when the current technician can serve nothing that
+    # is left).  The checker's counter must therefore advance once per loop iteration, unconditionally, after the check.
+    ok2, why2 = False, why
+    if len(loops) == 1:
+        lp = loops[0]
+        top = lp.body
+        tech_idx = set()
+        for a in [n for n in ast.walk(lp) if isinstance(n, ast.Assert)]:
+            for sub in ast.walk(a.test):
+                if isinstance(sub, ast.Subscript) and "techs" in ast.unparse(sub.value):
+                    tech_idx |= {x.id for x in ast.walk(sub.slice) if isinstance(x, ast.Name)}
+        def is_inc(st, nm):
+            if isinstance(st, ast.AugAssign) and isinstance(st.op, ast.Add) and isinstance(st.target, ast.Name) and st.target.id == nm:
+                return isinstance(st.value, ast.Constant) and st.value.value == 1
+            if isinstance(st, ast.Assign) and len(st.targets) == 1 and isinstance(st.targets[0], ast.Name) and st.targets[0].id == nm and isinstance(st.value, ast.BinOp) and isinstance(st.value.op, ast.Add):
+                sides = [st.value.left, st.value.right]
+                return any(isinstance(x, ast.Name) and x.id == nm for x in sides) and any(isinstance(x, ast.Constant) and x.value == 1 for x in sides)
+            return False
+        ctrs = [nm for nm in sorted(tech_idx) if any(is_inc(n, nm) for n in ast.walk(lp))]
+        if len(ctrs) != 1:
+            raise AnalysisError(f"SVRPEnv.check_solution_validity: cannot identify the technician counter (candidates {sorted(tech_idx)})")
+        ctr = ctrs[0]
+        top_incs = [i for i, st in enumerate(top) if is_inc(st, ctr)]
+        all_incs = [n for n in ast.walk(lp) if isinstance(n, ast.stmt) and is_inc(n, ctr)]
+        jumps = [n for n in ast.walk(lp) if isinstance(n, (ast.Continue, ast.Break))]
+        check_pos = [i for i, st in enumerate(top) if any(isinstance(n, ast.Assert) and "techs" in ast.unparse(n.test) for n in ast.walk(st))]
+        ok2 = len(top_incs) == 1 and len(all_incs) == 1 and not jumps and bool(check_pos) and max(check_pos) < top_incs[0]
+        why2 = (f"`{ctr}` indexes td['techs'] in the skill check; one unconditional `{ctr} += 1` per depot visit: {len(top_incs) == 1 and len(all_incs) == 1}; "
+                f"no skipped iteration: {not jumps}; the increment follows the check: {bool(check_pos) and bool(top_incs) and max(check_pos) < top_incs[0]}")
+        if not ok2:
+            why2 += " -- `_step` / `_get_reward` change technician at every depot visit (empty routes included); the checker would judge later routes against the wrong technician"
+    ctx.ob("C06.o", "SVRPEnv.checker:technician-per-route", ok2, fi.loc, why2, construct="SVRPEnv.check_solution_validity:technician-counter")
 
 
 def single_tour(ctx: Ctx):
